@@ -70,6 +70,13 @@ fn variants(rng: &mut Rng, k: u32) -> Vec<(&'static str, String)> {
         ("subshell-cd", format!("( cd d; echo *; echo w{k} >sub_f{k} ); echo \"?=$?\"; echo d/*")),
         ("cd", "cd d; echo *; cd ..; echo \"?=$?\"".to_string()),
         ("cd-missing", "cd nodir; echo \"?=$?\"".to_string()),
+        ("cd-pwd", "cd d/sub/..//sub/; echo \"${PWD##*/} ?=$?\"; cd - >|discarded; echo \"${PWD##*/}|${OLDPWD##*/}\"; cd \"$OLDPWD/..\"; echo *; cd ..".to_string()),
+        ("cd-pwd", "cd ./d/.; pwd >p.txt; read p <p.txt; echo \"${p##*/}\"; cd ..; cd d/sub; cd ../../d; echo \"${PWD##*/} ?=$?\"; cd ..".to_string()),
+        ("cd-pwd", "cd d; cd ../e1; echo \"?=$?\"; cd ../nodir/..; echo \"?=$? ${PWD##*/}\"; cd ..".to_string()),
+        ("source", format!("echo 'echo sourced{k}; return 5; echo NEVER' >s{k}.sh; . ./s{k}.sh; echo \"?=$?\"; command . ./missing.sh; echo \"?=$?\"")),
+        ("ulimit-nofile", "( ulimit -n 6; ulimit -n; exec 3>|f1 4>|f2 5>|f3; echo \"?=$?\"; exec 6>|f1; echo \"?=$?\" ); echo \"?=$?\"".to_string()),
+        ("read-opts", "read -r a b <<'EOF'\n  x\\ty   z \\\nEOF\necho \"[$a][$b] ?=$?\"; read a b <<'EOF'\none\\\ntwo three\nEOF\necho \"[$a][$b] ?=$?\"".to_string()),
+        ("type", "type cd; type rc; command -v echo; type nosuchcmd; echo \"?=$?\"".to_string()),
         ("async-wait", format!("{{ echo w{k} >f3; exit 3; }} & wait $!; echo \"?=$?\"; cat f3")),
         ("trap-self-signal", format!("trap 'echo trapped{k}' USR1; kill -s USR1 $$; echo after{k}; trap - USR1")),
         ("kill-child", "{ nap 200; echo never >nf; } & p=$!; kill -s TERM $p; wait $p; echo \"?=$?\"".to_string()),
